@@ -45,6 +45,12 @@ CONFIGS = {
     "inferred-genes": dict(n_chroms=2, extra=[], complete=False, fresh_home=True),     # no cached conversion: the killed runs convert, too
     # one run over two experiments (--bam_list): crash points of the first experiment, between the experiments and of the second one
     "two-experiments": dict(n_chroms=2, extra=[], experiments=("EXA", "EXB")),
+    # many options away from their defaults, among them list-valued and derived ones: what .params stores is read back and every derived
+    # setting is derived again by the resumed run
+    "many-options": dict(n_chroms=2, extra=["--bam_tags", "RG,NM", "--matching_strategy", "precise", "--model_construction_strategy", "sensitive_ont",
+                                            "--report_canonical", "all", "--polya_requirement", "never", "--transcript_quantification", "all",
+                                            "--gene_quantification", "unique_inconsistent", "--report_novel_unspliced", "true", "--delta", "3",
+                                            "--sqanti_output", "--check_canonical", "--count_exons"]),
 }
 
 
@@ -89,7 +95,7 @@ def run(chk, scratch):
                 "directory of a -t 1 run, after .params was written; the run is killed (os._exit) immediately before it and continued with --resume (every second point with --threads 3); "
                 "quick: every distinct call site (function, operation, file kind) of 2 configurations once + random fill; thorough: every crash "
                 "point of every configuration + multi-process kills. non-trivial = distinct call sites crashed at")
-    conf_names = list(CONFIGS) if thorough else ["multi-chrom-groups-exons", "annotation-free", "force-over-previous-run", "from-saved-assignments", "two-experiments", "inferred-genes", "file-name-groups-one-file"]
+    conf_names = list(CONFIGS) if thorough else ["multi-chrom-groups-exons", "annotation-free", "force-over-previous-run", "from-saved-assignments", "two-experiments", "inferred-genes", "file-name-groups-one-file", "many-options"]
     total_points = 0
     executed = 0
     sites_seen = set()
